@@ -67,6 +67,7 @@ type CheckOpts struct {
 	OnlyFunc string
 	Verbose  bool
 	Audit    bool
+	Diagnose bool
 }
 
 func hasProp(props []string, p string) bool {
@@ -92,6 +93,7 @@ func specProps(s *FuncSpec) map[string]bool {
 	}
 	add(s.Requires)
 	add(s.Ensures)
+	add(s.Invariants)
 	add(s.AssertCalls)
 	for _, l := range s.Loops {
 		add(l)
@@ -182,7 +184,7 @@ func Check(p *Program, opts CheckOpts) *Report {
 			continue
 		}
 		t0 := time.Now()
-		r := VerifyFunc(p, fn)
+		r := VerifyFunc(p, fn, opts.Prop)
 		fr.EncodeS = time.Since(t0).Seconds()
 		fr.Inlined, fr.UsedSpecs, fr.UsedExtern, fr.Notes = r.Inlined, r.UsedSpecs, r.UsedExtern, r.Notes
 		fr.Heaps = r.Heaps
@@ -351,6 +353,28 @@ func Check(p *Program, opts CheckOpts) *Report {
 				}(sj)
 			}
 			wg2.Wait()
+		}
+	}
+	// development aid: for obligations still unknown, drop every quantified assumption and look for a countermodel;
+	// "sat" here means the obligation is most likely unprovable as stated (a missing precondition / invariant),
+	// not merely slow. Never used to decide an obligation.
+	if opts.Diagnose {
+		for _, sj := range sjobs {
+			j := sj.j
+			if j.expect != "unsat" || j.res.Status != "unknown" {
+				continue
+			}
+			e := j.e
+			c := e.C
+			var asserts []*smt.Term
+			for _, a := range e.Axioms {
+				if !e.hasQuant(a) {
+					asserts = append(asserts, a)
+				}
+			}
+			asserts = append(asserts, j.o.Guard, c.Not(j.o.Cond))
+			r := smt.Race(opts.SMTDir, j.o.ID+".diag", c.Script(asserts, modelTerms(e, asserts), ""), 20, false)
+			j.res.Reason = "DIAG(no quantified assumptions)=" + r.Status + "; " + j.res.Reason
 		}
 	}
 	// second pass for refuted obligations: ask for the witness terms (replay input), first with shaping constraints
